@@ -148,7 +148,8 @@ def materialise(rng, sc, d, zfile, sizes):
             head = open(z, "rb").read(4)
             known = (head[1:4] == b"\xb5\x2f\xfd" and head[:1] and 0x22 <= head[0] <= 0x28) or (head[1:4] == b"\x2a\x4d\x18" and head[:1] and (head[0] & 0xF0) == 0x50) \
                 or head[:2] == b"\x1f\x8b" or head[:3] == b"\xfd\x37\x7a" or head[:4] == b"\x04\x22\x4d\x18" or head[:1] == b"\x5d"
-            passthru = sc.op == "d" and sc.force and sc.out == "stdout" and rcv != 0 and not known
+            # (the same holds for unrecognised bytes that follow a valid frame: corr "garbage")
+            passthru = sc.op == "d" and sc.force and sc.out == "stdout" and rcv != 0 and ((sc.corr[i] == "junk" and not known) or sc.corr[i] == "garbage")
             oks.append(rcv == 0 or passthru)
             if rcv == 0:
                 content = open(os.path.join(d, "oracle%d.out" % (i + 1)), "rb").read()
